@@ -1017,6 +1017,8 @@ fn gen_c07(thorough: bool, rng: &mut Rng, emit: &mut dyn FnMut(&str, Vec<String>
     let poss = ["nobyte", "partial", "full_silence", "unread"];
     let orders = ["stalled_first", "healthy_first", "interleaved"];
     if thorough {
+        // the full grid three times over: the schedules differ from run to run
+        for _rep in 0..3 {
         for kind in kinds {
             for k in ks {
                 for pos in poss.iter().copied().chain(["unread_full"]) {
@@ -1030,6 +1032,7 @@ fn gen_c07(thorough: bool, rng: &mut Rng, emit: &mut dyn FnMut(&str, Vec<String>
                     }
                 }
             }
+        }
         }
         return;
     }
@@ -1080,19 +1083,32 @@ fn gen_c08(thorough: bool, rng: &mut Rng, emit: &mut dyn FnMut(&str, Vec<String>
     let tasks = [1usize, 2, 8];
     let delays = [0u64, 1, 5];
     if thorough {
-        for (nu, nb) in &sizes {
-            for t in tasks {
-                for d in delays {
-                    for c in [0, 1] {
-                        for rt in RTS {
-                            emit(
-                                "accept.pace",
-                                vec![s(rt), s(nu), s(nb), s(t), s(d), s(c), s(rng.below(1_000_000))],
-                            );
+        // the full grid four times over (schedules differ from run to run), then random shapes
+        for _rep in 0..4 {
+            for (nu, nb) in &sizes {
+                for t in tasks {
+                    for d in delays {
+                        for c in [0, 1] {
+                            for rt in RTS {
+                                emit(
+                                    "accept.pace",
+                                    vec![s(rt), s(nu), s(nb), s(t), s(d), s(c), s(rng.below(1_000_000))],
+                                );
+                            }
                         }
                     }
                 }
             }
+        }
+        for _ in 0..600 {
+            let nu = rng.range(0, 120) as usize;
+            let nb = rng.range(0, 120) as usize;
+            let t = rng.range(1, 8) as usize;
+            let d = rng.range(0, 6);
+            emit(
+                "accept.pace",
+                vec![s(*rng.pick(&RTS)), s(nu), s(nb), s(t), s(d), s(rng.below(2)), s(rng.below(1_000_000))],
+            );
         }
         return;
     }
